@@ -890,7 +890,9 @@ loop:
 				return fmt.Errorf("cannot overwrite non-directory %q with directory %q", path, dest)
 			}
 
-			if fi.IsDir() && hdr.Name == "." {
+			if fi.IsDir() && rel == "." {
+				// The entry names the destination itself ("." but also "/",
+				// which cleans to the same path): never replace it.
 				continue
 			}
 
